@@ -382,7 +382,7 @@ def g_lle_wrapper():
     return run
 
 
-BUDGET_S = {'quick': 400, 'thorough': 3000}
+BUDGET_S = {'quick': 400, 'thorough': 1200}
 
 
 def groups(tier):
